@@ -139,59 +139,61 @@ Proof. intros iso fromts. split; [apply factors_none | apply factors_exact]. Qed
 Print Assumptions C06_memo_library_factors.
 
 (* the machine's invariant (every generated table of every class equals the pure function of the class
-   definition / of its key; the value memo is sound) holds after EVERY history *)
+   definition / of its key; the value memo is sound) holds after EVERY history (both variants of the machine) *)
 Theorem C06_hist_inv_run :
-  forall conv0 dumpv iso fromts strp mk, factors (am iso fromts) mk am_cacheable ->
-  forall h, HInv iso fromts mk (hrun conv0 dumpv iso fromts strp mk hinit h).
-Proof. intros conv0 dumpv iso fromts strp mk F h. apply hrun_inv; [exact F | apply HInv_init]. Qed.
+  forall shared_pat conv0 dumpv iso fromts strp mk, factors (am iso fromts) mk am_cacheable ->
+  forall h, HInv iso fromts mk (hrun shared_pat conv0 dumpv iso fromts strp mk hinit h).
+Proof. intros sp conv0 dumpv iso fromts strp mk F h. apply hrun_inv; [exact F | apply HInv_init]. Qed.
 Print Assumptions C06_hist_inv_run.
 
-(* TRANSPARENCY over ALL histories (no side condition on the history): returned value, error class, class and
-   field of every load / dump equal those of the same call after the definitions alone.  `erase_ty` leaves out
-   only the type NAMED by a ParseError (open finding F73). *)
+(* FULL TRANSPARENCY over ALL histories, no side condition on the history: the outcome of every load / dump
+   (returned value, error class, class, field AND the type a ParseError names) equals the outcome of the same
+   call after the definitions alone.  `hstep false` is the library since fix commit 38c6a1a (finding F73 repaired:
+   every default-engine pattern parser works on its own copy of the Pattern object). *)
 Theorem C06_hist_transparent_all :
   forall conv0 dumpv iso fromts strp mk, factors (am iso fromts) mk am_cacheable ->
   forall h o,
-  erase_ty (snd (hstep conv0 dumpv iso fromts strp mk (hrun conv0 dumpv iso fromts strp mk hinit h) o)) =
-  erase_ty (snd (hstep conv0 dumpv iso fromts strp mk (hrun conv0 dumpv iso fromts strp mk hinit (hdefs_all h)) o)).
-Proof. exact hist_transparent_erased. Qed.
+  snd (hstep false conv0 dumpv iso fromts strp mk (hrun false conv0 dumpv iso fromts strp mk hinit h) o) =
+  snd (hstep false conv0 dumpv iso fromts strp mk (hrun false conv0 dumpv iso fromts strp mk hinit (hdefs_all h)) o).
+Proof. exact hist_transparent_full. Qed.
 Print Assumptions C06_hist_transparent_all.
-
-(* FULL transparency (also the type an error names) where every Pattern object is used at positions of one
-   date/time type.  _partial: outside this region the faithful model differs (C06_hist_refuted_shared_pattern). *)
-Theorem C06_hist_transparent_partial :
-  forall conv0 dumpv iso fromts strp mk, factors (am iso fromts) mk am_cacheable ->
-  forall h o, pat_consistent (h ++ [o]) = true ->
-  snd (hstep conv0 dumpv iso fromts strp mk (hrun conv0 dumpv iso fromts strp mk hinit h) o) =
-  snd (hstep conv0 dumpv iso fromts strp mk (hrun conv0 dumpv iso fromts strp mk hinit (hdefs_all h)) o).
-Proof. exact hist_transparent_partial. Qed.
-Print Assumptions C06_hist_transparent_partial.
 
 (* the library's own policy (no value-level memo), and an exact-keyed memo: no hypothesis left *)
 Theorem C06_hist_transparent_library :
   forall conv0 dumpv iso fromts strp mk, mk = mk_none \/ mk = mk_exact ->
   forall h o,
-  erase_ty (snd (hstep conv0 dumpv iso fromts strp mk (hrun conv0 dumpv iso fromts strp mk hinit h) o)) =
-  erase_ty (snd (hstep conv0 dumpv iso fromts strp mk (hrun conv0 dumpv iso fromts strp mk hinit (hdefs_all h)) o))
-  /\ (pat_consistent (h ++ [o]) = true ->
-      snd (hstep conv0 dumpv iso fromts strp mk (hrun conv0 dumpv iso fromts strp mk hinit h) o) =
-      snd (hstep conv0 dumpv iso fromts strp mk (hrun conv0 dumpv iso fromts strp mk hinit (hdefs_all h)) o)).
+  snd (hstep false conv0 dumpv iso fromts strp mk (hrun false conv0 dumpv iso fromts strp mk hinit h) o) =
+  snd (hstep false conv0 dumpv iso fromts strp mk (hrun false conv0 dumpv iso fromts strp mk hinit (hdefs_all h)) o).
 Proof.
-  intros conv0 dumpv iso fromts strp mk [-> | ->] h o.
-  - split; [apply hist_transparent_erased | apply hist_transparent_partial]; apply factors_none.
-  - split; [apply hist_transparent_erased | apply hist_transparent_partial]; apply factors_exact.
+  intros conv0 dumpv iso fromts strp mk [-> | ->] h o; apply hist_transparent_full; [apply factors_none | apply factors_exact].
 Qed.
 Print Assumptions C06_hist_transparent_library.
 
 (* ... and both equal the cache-free reference (no table read; keys resolved by resolve_x / the v1 chain of
-   the definition; values converted by the conversion itself) *)
-Theorem C06_hist_pure_outcome_partial :
+   the definition; values converted by the conversion itself; a ParseError names the position's own type) *)
+Theorem C06_hist_pure_outcome :
   forall conv0 dumpv iso fromts strp mk, factors (am iso fromts) mk am_cacheable ->
-  forall h o, pat_consistent (h ++ [o]) = true ->
-  snd (hstep conv0 dumpv iso fromts strp mk (hrun conv0 dumpv iso fromts strp mk hinit h) o) =
-  pure_hop conv0 dumpv iso fromts strp mk (h_defs (hrun conv0 dumpv iso fromts strp mk hinit h)) o.
-Proof. exact hist_pure_partial. Qed.
-Print Assumptions C06_hist_pure_outcome_partial.
+  forall h o,
+  snd (hstep false conv0 dumpv iso fromts strp mk (hrun false conv0 dumpv iso fromts strp mk hinit h) o) =
+  pure_hop false conv0 dumpv iso fromts strp mk (h_defs (hrun false conv0 dumpv iso fromts strp mk hinit h)) o.
+Proof. exact hist_pure_full. Qed.
+Print Assumptions C06_hist_pure_outcome.
+
+(* the PRE-FIX VARIANT `hstep true` (parsers re-target the shared Pattern object and read it again when they report an
+   error - /repo before 38c6a1a): transparent for all histories only up to the type an error names, fully only where
+   every Pattern object sits at positions of one date/time type (refuted outside: C06_hist_prefix_variant_refuted) *)
+Theorem C06_hist_prefix_variant_partial :
+  forall conv0 dumpv iso fromts strp mk, factors (am iso fromts) mk am_cacheable ->
+  forall h o,
+  erase_ty (snd (hstep true conv0 dumpv iso fromts strp mk (hrun true conv0 dumpv iso fromts strp mk hinit h) o)) =
+  erase_ty (snd (hstep true conv0 dumpv iso fromts strp mk (hrun true conv0 dumpv iso fromts strp mk hinit (hdefs_all h)) o))
+  /\ (pat_consistent (h ++ [o]) = true ->
+      snd (hstep true conv0 dumpv iso fromts strp mk (hrun true conv0 dumpv iso fromts strp mk hinit h) o) =
+      snd (hstep true conv0 dumpv iso fromts strp mk (hrun true conv0 dumpv iso fromts strp mk hinit (hdefs_all h)) o)).
+Proof.
+  intros conv0 dumpv iso fromts strp mk F h o. split; [apply hist_transparent_erased | apply hist_transparent_partial]; exact F.
+Qed.
+Print Assumptions C06_hist_prefix_variant_partial.
 
 (* non-vacuity: v1 AUTO with two spellings of one field after a camelCase document, default engine with two
    spellings (document order decides), exact-typed values, a shared Pattern object at two date positions *)
@@ -204,7 +206,7 @@ Print Assumptions C06_hist_example.
 (* the two machines side by side (an interleaved history of both): C06_transparent and the theorem above compose *)
 Theorem C06_product_transparent :
   forall conv0 dumpv iso fromts strp mk, factors (am iso fromts) mk am_cacheable ->
-  forall h o, safe_history (lefts (h ++ [o])) = true -> pat_consistent (rights (h ++ [o])) = true ->
+  forall h o, safe_history (lefts (h ++ [o])) = true ->
   snd (pstep conv0 dumpv iso fromts strp mk (prun conv0 dumpv iso fromts strp mk (init, hinit) h) o) =
   snd (pstep conv0 dumpv iso fromts strp mk (prun conv0 dumpv iso fromts strp mk (init, hinit) (pdefs_all h)) o).
 Proof. exact product_transparent. Qed.
@@ -222,22 +224,23 @@ Print Assumptions C06_memo_pyeq_refuted.
 
 (* ... and in the machine: an unrelated class loads the timestamp 1, then Event(at: datetime) accepts True *)
 Theorem C06_hist_refuted_pyeq_memo :
-  exists h o, pat_consistent (h ++ [o]) = true /\
-  snd (w_step mk_py (w_run mk_py hinit h) o) <> snd (w_step mk_py (w_run mk_py hinit (hdefs_all h)) o).
+  exists h o, snd (w_step mk_py (w_run mk_py hinit h) o) <> snd (w_step mk_py (w_run mk_py hinit (hdefs_all h)) o).
 Proof.
-  exists h_memo9, o_memo9. destruct refuted_memo9 as [A [B C]]. split; [exact C |]. rewrite A, B. discriminate.
+  exists h_memo9, o_memo9. destruct refuted_memo9 as [A [B C]]. rewrite A, B. discriminate.
 Qed.
 Print Assumptions C06_hist_refuted_pyeq_memo.
 
-(* (F73, the library itself) one Pattern object at a date and at a datetime position: the ParseError of the
-   date position names datetime once the other class has set up its parser *)
-Theorem C06_hist_refuted_shared_pattern :
-  exists h o, pat_consistent (h ++ [o]) = false /\
-  snd (w_step mk_none (w_run mk_none hinit h) o) <> snd (w_step mk_none (w_run mk_none hinit (hdefs_all h)) o).
+(* (F73, repaired) the pre-fix variant: one Pattern object at a date and at a datetime position: the ParseError of the
+   date position names datetime once the other class has set up its parser; the library names date either way *)
+Theorem C06_hist_prefix_variant_refuted :
+  (exists h o, pat_consistent (h ++ [o]) = false /\
+     snd (w_step_prefix mk_none (w_run_prefix mk_none hinit h) o) <> snd (w_step_prefix mk_none (w_run_prefix mk_none hinit (hdefs_all h)) o)) /\
+  snd (w_step mk_none (w_run mk_none hinit h_f71) o_f71) = HErr (HEParse 1%nat (S "day") (S "date")).
 Proof.
+  split; [| exact (proj1 f71_repaired)].
   exists h_f71, o_f71. destruct refuted_f71 as [A [B C]]. split; [exact C |]. rewrite A, B. discriminate.
 Qed.
-Print Assumptions C06_hist_refuted_shared_pattern.
+Print Assumptions C06_hist_prefix_variant_refuted.
 
 (* (C06-8) remembering per FIELD the spelling that matched last memoises a function of (field, document) under
    the key `field`; (C06-7) memoising the generated transform on the Pattern OBJECT memoises a function of
